@@ -974,10 +974,12 @@ func c47Sync(sy *syncer, run *c47Run, root common.Hash, bound time.Duration) c47
 func c47GenScript(rt *rapid.T, label string, anchor bool, maxDrops *int) [4][]int {
 	var out [4][]int
 	for k := 0; k < 4; k++ {
-		n := rapid.IntRange(0, 10).Draw(rt, fmt.Sprintf("%s/k%d/len", label, k))
+		n := rapid.IntRange(1, 14).Draw(rt, fmt.Sprintf("%s/k%d/len", label, k))
 		for i := 0; i < n; i++ {
 			var bh int
-			if anchor {
+			if k == kSto && rapid.IntRange(0, 2).Draw(rt, fmt.Sprintf("%s/k%d/%d/cap", label, k, i)) == 0 {
+				bh = bhCapTiny // tiny storage replies switch the syncer to chunked large-contract mode
+			} else if anchor {
 				bh = rapid.IntRange(bhHonest, bhDelay).Draw(rt, fmt.Sprintf("%s/k%d/%d", label, k, i))
 			} else {
 				bh = rapid.IntRange(bhHonest, bhCount-1).Draw(rt, fmt.Sprintf("%s/k%d/%d", label, k, i))
@@ -1011,18 +1013,34 @@ func c47ScriptString(s [4][]int) string {
 }
 
 var c47Stalls, c47Cases atomic.Int64
+var c47Slow atomic.Value
 
 func TestVerifC47SyncV1(t *testing.T) {
 	st := vs.New("C47", t)
 	vs.Check(t, 1, func(rt *rapid.T) {
 		c := st.Case()
 		c47Cases.Add(1)
+		began := time.Now()
+		defer func() {
+			// statistics only: how the wall time of a run is distributed
+			switch d := time.Since(began); {
+			case d < 200*time.Millisecond:
+				c.Class("wall<0.2s")
+			case d < 2*time.Second:
+				c.Class("wall<2s")
+			case d < 10*time.Second:
+				c.Class("wall<10s")
+			default:
+				c.Class("wall>=10s")
+				st.Note("slow run (%v): %s", d.Round(time.Second), c47Slow.Load())
+			}
+		}()
 		// ---- target state
 		sh := c47Shape{
 			scheme:    rapid.SampledFrom([]string{rawdb.HashScheme, rawdb.PathScheme}).Draw(rt, "scheme"),
 			seed:      rapid.Uint64().Draw(rt, "stateSeed"),
 			hostile:   rapid.Bool().Draw(rt, "hostileKeys"),
-			stShare:   rapid.SampledFrom([]int{0, 10, 40, 90}).Draw(rt, "storageShare"),
+			stShare:   rapid.SampledFrom([]int{0, 20, 60, 90, 90}).Draw(rt, "storageShare"),
 			codeShare: rapid.SampledFrom([]int{0, 30, 90}).Draw(rt, "codeShare"),
 		}
 		maxAcc := 120
@@ -1095,6 +1113,7 @@ func TestVerifC47SyncV1(t *testing.T) {
 			sy.Register(p)
 			p.remote = sy
 		}
+		c47Slow.Store(fmt.Sprintf("%+v ttl=%v cancelAt=%d allBad=%v peers=%s", sh, ttl, cancelAt, allBad, desc))
 		report := func(format string, a ...any) {
 			rt.Fatalf("%s\n  state: %+v root=%x\n  peers: %s\n  served=%d rejected=%d(acc %d sto %d code %d node %d) tampered=%d chunked-storage-requests=%d heal-requests=%d db-puts=%d",
 				fmt.Sprintf(format, a...), sh, state.root, desc, run.served.Load(), run.rejected.Load(),
